@@ -1,5 +1,5 @@
 (* AltKeyCore.v — shared executable models of the altitude-key index arithmetic in transform/convert_quadkey_and_Vertical_id.go:
-   validateIndexExists, ConvertZToMinMaxAltitudekey (after the repair 84c8b2c), convertZToMinAltitudekey, ConvertAltitudekeyToMinMaxZ.
+   validateIndexExists, ConvertZToMinMaxAltitudekey (after the repairs 84c8b2c and the zoom check), convertZToMinAltitudekey, ConvertAltitudekeyToMinMaxZ.
    Definitions only; the covering theorems are in AltKey.v (property C12). *)
 From Coq Require Import ZArith Lia Bool.
 From SID Require Import Base.
@@ -22,8 +22,11 @@ Definition z2key_raw (f z out E O : Z) : Z * Z :=
   let offset := ashift O fraction in
   let toKey := out - E - fraction in
   (ashift (lower + offset) toKey, - ashift (- (upper + offset)) toKey - 1).
+(* both exported conversions first refuse zooms outside 0..35 (shape.CheckZoom on the source and the target zoom; fix commit in /repo) *)
+Definition zoom_ok (z : Z) : bool := (0 <=? z) && (z <=? 35).
 Definition z2key (f z out E O : Z) : result (Z * Z) :=
-  if negb (index_exists f z true) then Err
+  if negb (zoom_ok z) || negb (zoom_ok out) then Err
+  else if negb (index_exists f z true) then Err
   else let '(mn, mx) := z2key_raw f z out E O in
        if index_exists mn out false && index_exists mx out false then Ok (mn, mx) else Err.
 
@@ -36,7 +39,8 @@ Definition z2minkey (f z out E O : Z) : result Z :=
 (* ConvertAltitudekeyToMinMaxZ(altitudekey, altitudekeyZoomLevel, outputZoom, zBaseExponent, zBaseOffset) *)
 Definition key2z (k kz out E O : Z) : result (Z * Z) :=
   let inres := ashift 1 kz in
-  if (inres - 1 <? k) || (k <? 0) then Err
+  if negb (zoom_ok kz) || negb (zoom_ok out) then Err
+  else if (inres - 1 <? k) || (k <? 0) then Err
   else
     let zd := E - kz in
     let imin := ashift k zd in
